@@ -43,9 +43,32 @@ func setupC17(x *Ctx) {
 	// reference model: visible services and their address sets
 	model := map[string]map[string]bool{}
 
+	// services the provider resolves as soon as it has been started, i.e. while
+	// MdnsManager.Start / Hub.Start are still running on the application's goroutine
+	nEarly := x.Biased("early-services", 3, 0.6)
+	if nEarly > len(svcs) {
+		nEarly = len(svcs)
+	}
+	earlyDone := make(chan struct{})
+	x.Go("A:early", func() {
+		defer close(earlyDone)
+		simrt.Recv("created", a.ready)
+		simrt.Recv("provider-started", a.prov.startedCh)
+		for i := 0; i < nEarly; i++ {
+			s := svcs[i]
+			ip := c17Addrs[i%2]
+			model[s.ski] = map[string]bool{ip: true}
+			history = append(history, fmt.Sprintf("early-add %s [%s]", s.ski[len(s.ski)-4:], ip))
+			x.Ev("mdns-in", "early-add", s.ski, 1)
+			x.Probe("resolved-during-start")
+			a.prov.cb(txtOf(s), "name-"+s.id, "host-"+s.id+".local", []net.IP{net.ParseIP(ip)}, 4711, false)
+		}
+	})
+
 	x.Go("A:resolver", func() {
 		a.create()
 		a.hub.Start()
+		simrt.Recv("early-done", earlyDone)
 		simrt.Sleep(time.Second)
 		for i := 0; i < nEv; i++ {
 			s := svcs[x.Choose("svc", len(svcs))]
